@@ -183,6 +183,31 @@ Theorem thumbprint_types_are_the_asymmetric_creatable_ones : forall kt,
 Proof. destruct kt; cbn; intro H; split; intro; try reflexivity; try discriminate. Qed.
 Print Assumptions thumbprint_types_are_the_asymmetric_creatable_ones.
 
+(* THE TABLES ARE /repo's.  The translator also EXECUTES the real localkms for every exported kms.KeyType constant
+   (Create, ImportPrivateKey of a matching private key, ExportPubKeyBytes, Rotate, jwkkid.CreateKID of the exported key)
+   on every run; what it did agrees, for every key type, with the tables read from the source text (kt_creatable,
+   kt_importable, kt_random_id, kt_template, kt_kid_defined) and with the hand-written ones of the model (kt_exportable,
+   export_enc): which types can be created / imported, whether a stored keyset exports its public key and in which
+   encoding, whether its id is the thumbprint of the exported key, whether Rotate accepts it.  A key type added to
+   spi/kms or an edit of the export / id / rotate code that the model does not follow breaks this obligation. *)
+Theorem executed_tables_agree : forall kt,
+  exec_creatable kt = kt_creatable kt /\ exec_importable kt = kt_importable kt /\
+  (exec_stored kt = true ->
+     exec_exportable kt = model_exportable kt /\
+     exec_export_enc kt = (if model_exportable kt then export_enc kt else None) /\
+     exec_thumb_id kt = (model_exportable kt && kt_kid_defined kt)%bool /\
+     exec_rotatable kt = kt_rotatable kt).
+Proof. exact exec_tables_agree. Qed.
+Print Assumptions executed_tables_agree.
+
+(* what the model's Export / new-id / Rotate rules say, in terms of these tables: a completed export returns the
+   primary key's public key exactly for the exportable types; a created key's id is a thumbprint id exactly for them *)
+Theorem export_succeeds_iff_exportable : forall v st id ks k,
+  lookup (st_store st) id = Some ks -> primary ks = Some k ->
+  snd (step v st (KExport id, None)) = (if model_exportable (ks_kt ks) then OPub k else OErr).
+Proof. exact export_iff_exportable. Qed.
+Print Assumptions export_succeeds_iff_exportable.
+
 (* DID:KEY FORM.  For every key type (generated tables: multicodec, re-encoding done by BuildDIDKeyByKeyType) the
    did:key built from the exported public key carries an encoding that the did:key readers decode *)
 Theorem didkey_form : forall kt ce, build_didkey kt = Some ce -> didkey_readable ce = true.
